@@ -40,7 +40,7 @@ abbrev Ctx := Slots Leaf
 /-! ## the context functions used by the protocol (`lena/context/functions.py`) -/
 
 mutual
-/-- body of `for key, val in other.items():` of `update_recursively` (lines 638-647) for a key of `other`
+/-- body of `for key, val in other.items():` of `update_recursively` (functions.py 648-657) for a key of `other`
 with value `val`; first argument `d.get(key)`; result: `d[key]` afterwards -/
 def updV : Option V → V → V
   | _, .leaf a => .leaf a                            -- `if not isinstance(val, dict): d[key] = val`
@@ -60,7 +60,7 @@ def updL : Ctx → Ctx → Ctx
 end
 
 mutual
-/-- body of `for key in res:` of `intersection` (lines 395-406) at `level = -1` for a key that is in both
+/-- body of `for key in res:` of `intersection` (functions.py 395-406) at `level = -1` for a key that is in both
 dictionaries, with values `res[key]` and `d[key]`; result: the binding of `key` in `res` afterwards.  The
 recursive call `intersection(res[key], d[key], level=level-1)` on two dictionaries is its loop over the
 single further dictionary (its early `return res` returns the same value). -/
@@ -82,7 +82,7 @@ def interL : Ctx → Ctx → Ctx
   | x :: r, y :: r' => interO x y :: interL r r'
 end
 
-/-- the loop `for d in dicts[1:]:` (lines 388-412) with its early return `if not res: return res` -/
+/-- the loop `for d in dicts[1:]:` (functions.py 388-412) with its early return `if not res: return res` -/
 def interFold : Ctx → List Ctx → Ctx
   | res, [] => res
   | res, d :: ds =>
@@ -94,12 +94,12 @@ def interN (n : Nat) : List Ctx → Ctx
   | [] => Val.empty n                                -- `if not dicts: return {}`
   | d0 :: ds => interFold d0 ds                      -- `res = copy.deepcopy(dicts[0])`
 
-/-- `str_to_dict("k.k1.k2…", value)`: nested one-key dictionaries (lines 421-471); always `n` slots -/
+/-- `str_to_dict("k.k1.k2…", value)`: nested one-key dictionaries (functions.py 421-481); always `n` slots -/
 def single (n : Nat) : Nat → List Nat → Leaf → Ctx
   | k, [], l => (List.range n).map (fun i => if i = k then some (.leaf l) else none)
   | k, k' :: ks, l => (List.range n).map (fun i => if i = k then some (.dict (single n k' ks l)) else none)
 
-/-- `get_recursively(d, keys)` without default (lines 323-338) for a list of keys (a dotted string is split
+/-- `get_recursively(d, keys)` without default (functions.py 323-338) for a list of keys (a dotted string is split
 and its empty components dropped by the caller): `error k` = `LenaKeyError("nested dict/key k not found")` -/
 def getRec : Ctx → List Nat → Except Nat V
   | d, [] => .ok (.dict d)                           -- `if not keys: return d`
@@ -112,7 +112,7 @@ def getRec : Ctx → List Nat → Except Nat V
     | some (.dict d') => getRec d' (k' :: ks)        -- `key in d and isinstance(d.get(key), dict)`
     | _ => .error k
 
-/-! ## formatting (`format_context`, lines 111-212, for well-formed double-brace templates)
+/-! ## formatting (`format_context`, functions.py 111-212, for well-formed double-brace templates)
 
 A template `lit0{{path1}}lit1{{path2}}lit2…` is given parsed (the scanner belongs to C08); the function
 returned by `format_context` looks up *all* fields first, in order, and then renders. -/
@@ -163,7 +163,7 @@ inductive SVal where
   | tpl (t : Tpl)
   deriving Repr
 
-/-- `format_update_with(key, value, d)` (lines 215-239) returning the new `d`; `key = k.ks` -/
+/-- `format_update_with(key, value, d)` (functions.py 215-239) returning the new `d`; `key = k.ks` -/
 def fmtUpdate (n : Nat) (k : Nat) (ks : List Nat) (v : SVal) (d : Ctx) : Except Nat Ctx :=
   match v with
   | .const l => .ok (updL d (single n k ks l))
@@ -283,7 +283,7 @@ mutual
 def getCtx (n : Nat) : St → Except Nat Ctx
   | .set _ _ _ sc => sc.get
   | .seq _ _ sc => sc.get
-  | .split bs =>                                     -- split.py 108-123
+  | .split bs =>                                     -- split.py 124-140 (LenaSplit._get_context)
     match getCtxs n bs with
     | .error e => .error e
     | .ok cs => .ok (interN n cs)
@@ -306,7 +306,7 @@ mutual
 /-- `el._set_context(context)`: the new state of the element (and of everything below it) and the
 `LenaKeyError` it raised, if any -/
 def setCtx (n : Nat) : St → Ctx → St × Option Nat
-  | .set k ks v sc, c =>                             -- meta/elements.py 55-67
+  | .set k ks v sc, c =>                             -- meta/elements.py 53-65
     match fmtUpdate n k ks v c with
     | .ok c' => (.set k ks v (.ok c'), none)
     | .error e => (.set k ks v (sc.fail e), some e)
@@ -323,7 +323,7 @@ def setCtx (n : Nat) : St → Ctx → St × Option Nat
     | (cs', .done c') => (.seq kind cs' (.ok c'), none)
     | (cs', .ret e) => (.seq kind cs' (sc.fail e), none)
     | (cs', .raise e) => (.seq kind cs' (sc.fail e), some e)
-  | .split bs, c =>                                  -- split.py 125-139
+  | .split bs, c =>                                  -- split.py 142-157 (LenaSplit._set_context)
     if nonEmpty c = true then (.split (branches n bs c), none)
     else (.split bs, none)                           -- `if not context: return`
 /-- the loop `for el in self._seq:` of `LenaSequence._set_context` with running context `c` -/
@@ -422,7 +422,7 @@ def foldL (n : Nat) : List Tree → Ctx → Except Nat Ctx
     | .error e => .error e
     | .ok c' => foldL n ts c'
 /-- the contexts exported by the branches of a `Split`, each started from `c`; a branch without
-`_get_context` is transparent ("not intersecting the others with {}", split.py 111-113) -/
+`_get_context` is transparent ("not intersecting the others with {}", split.py 127-129) -/
 def foldB (n : Nat) : List Tree → Ctx → Except Nat (List Ctx)
   | [], _ => .ok []
   | b :: bs, c =>
@@ -444,7 +444,7 @@ whose `run` reads anything that `_set_context` stored are `UpdateContextFromStat
 `Write.run` passes data that is not a string on unchanged, `Cache.run` (no cache file yet, or
 `recompute=True`) yields the flow it dumps.  `Split.run` with `bufsize=None` materialises the flow in one
 buffer and yields the results of its branches in turn, each branch receiving a copy; a `Source` branch
-yields its own flow; a `Split` without branches yields the flow unchanged (split.py 283-420).
+yields its own flow; a `Split` without branches yields the flow unchanged (Split.run, split.py 306-440).
 `none` = outside the modelled domain (`context.output` is not a dictionary, an existing
 `output.prefix`/`suffix` is not a string). -/
 
@@ -560,7 +560,7 @@ def mkfSteps (n : Nat) (ok : OutKeys) (overwrite : Bool) (static : Option Ctx) :
 def mkfCall (n : Nat) (ok : OutKeys) (m : Mkf) (static : Option Ctx) (ctx : Ctx) : Option Ctx :=
   mkfSteps n ok m.overwrite static m.methods ctx
 
-/-- `UpdateContextFromStatic.run` on one value (meta/elements.py 132-138); `data, context = val` raises for a
+/-- `UpdateContextFromStatic.run` on one value (meta/elements.py 136-142); `data, context = val` raises for a
 value without context: `none` -/
 def ucfsItem (c : Ctx) (it : Item) : Option Item :=
   it.2.map fun x => (it.1, some (updL x c))
@@ -859,6 +859,43 @@ def St.strip : St → St
 def stripL : List St → List St
   | [] => []
   | s :: ss => s.strip :: stripL ss
+end
+
+/-! ## domain of validity: no rendered dictionary
+
+`Leaf.bad` stands for `str(dict)`, which the model does not describe: a program in whose constructed state a `bad`
+leaf occurs is outside the domain in which the model is a model of the code.  `St.noBad` is evaluated by the
+driver on every generated case (and must be `true` there). -/
+
+mutual
+def noBadV : V → Bool
+  | .leaf .bad => false
+  | .leaf _ => true
+  | .dict d => noBadL d
+def noBadL : Ctx → Bool
+  | [] => true
+  | none :: r => noBadL r
+  | some v :: r => noBadV v && noBadL r
+end
+
+def SC.noBad : SC → Bool
+  | .ok c => noBadL c
+  | .failed _ => true
+
+mutual
+def St.noBad : St → Bool
+  | .set _ _ _ sc => sc.noBad
+  | .store c => noBadL c
+  | .ucfs c => noBadL c
+  | .mkf _ c => match c with | some x => noBadL x | none => true
+  | .write _ nm => nm != some Leaf.bad
+  | .cache _ nm => nm != some Leaf.bad
+  | .seq _ cs sc => sc.noBad && noBadS cs
+  | .split bs => noBadS bs
+  | _ => true
+def noBadS : List St → Bool
+  | [] => true
+  | s :: ss => s.noBad && noBadS ss
 end
 
 end Lena.C13
